@@ -52,7 +52,18 @@ def both(*ps):
 
 
 def _word_ends_e(i):
-    return bool((i.get("meta") or {}).get("messages")) and re.search(r"E$|ER$|ERR$", i.get("word", "")) is not None
+    # the filler `_` only exists for exactly one message and no candidate that survives the filter
+    msgs = (i.get("meta") or {}).get("messages") or []
+    if len(set(msgs)) != 1 or re.search(r"E$|ER$|ERR$", i.get("word", "")) is None:
+        return False
+    w = i.get("word", "")
+    env = i.get("env") or {}
+    n = 0
+    for v in i.get("values") or []:
+        val = v.get("value", "")
+        if env.get("unfiltered") or val.startswith(w) or (env.get("ci") and val.lower().startswith(w.lower())):
+            n += 1
+    return n == 0
 
 
 def _neutral_word_e(i):
